@@ -140,6 +140,11 @@ def checkGlobalConvFlagsEol (old new : TextStat) : Option EolMsg :=
   else if old.lonelf != 0 && new.lonelf == 0 then some .lfToCrlf -- CRLFs would be added by checkout
   else none
 
+/-- `new_stats` in `crlf_to_git` after "simulate git add" and "simulate git checkout" -/
+def simulateAddCheckout (cfg : GitConfig) (stats : TextStat) (convert : Bool) (a : CrlfAction) : TextStat :=
+  let new1 := if convert then { stats with lonelf := stats.lonelf + stats.crlf, crlf := 0 } else stats
+  if willConvertLfToCrlf cfg new1 a then { new1 with crlf := new1.crlf + new1.lonelf, lonelf := 0 } else new1
+
 /-- the `do … while (--len)` loop of `crlf_to_git` for the non-auto actions:
 `if (! (c == '\r' && (1 < len && *src == '\n'))) *dst++ = c;` -/
 def stripCrBeforeLf : Bytes → Bytes
@@ -159,6 +164,22 @@ structure ToGit where
   warning : Option EolMsg := none
   deriving DecidableEq, Repr
 
+/-- `convert_crlf_into_lf` in `crlf_to_git`: "If the file in the index has any CR in it, do not
+convert. This is the new safer autocrlf handling" -/
+def convertCrlfIntoLf (stats : TextStat) (a : CrlfAction) (index : Option Bytes) : Bool :=
+  if a.isAuto && hasCrlfInIndex index then false
+  else stats.crlf != 0                 -- Optimization: No CRLF? Nothing to convert, regardless.
+
+/-- the end of `crlf_to_git`: `die`/`warning` from `check_global_conv_flags_eol`, then the copy loops -/
+def crlfToGitTail (src : Bytes) (a : CrlfAction) (convert : Bool) (msg : Option EolMsg)
+    (safe : SafeCrlf) : Except EolMsg ToGit :=
+  match safe, msg with
+  | .die, some m => .error m
+  | _, _ =>
+    if !convert then .ok { out := src, warning := msg }
+    else if a.isAuto then .ok { out := stripAllCr src, warning := msg }
+    else .ok { out := stripCrBeforeLf src, warning := msg }
+
 /-- `crlf_to_git` (with a destination buffer, without `CONV_EOL_RENORMALIZE`); `index` is the blob
 the index holds for the path. -/
 def crlfToGit (cfg : GitConfig) (index : Option Bytes) (src : Bytes) (a : CrlfAction)
@@ -166,22 +187,13 @@ def crlfToGit (cfg : GitConfig) (index : Option Bytes) (src : Bytes) (a : CrlfAc
   if a == .binary || src.isEmpty then .ok { out := src }
   else
     let stats := gatherStats src
-    let convert0 := stats.crlf != 0                 -- Optimization: No CRLF? Nothing to convert, regardless.
     if a.isAuto && convertIsBinary stats then .ok { out := src }
     else
-      let convert := if a.isAuto && hasCrlfInIndex index then false else convert0
+      let convert := convertCrlfIntoLf stats a index
       let msg : Option EolMsg :=
-        if safe != .off then
-          let new1 := if convert then { stats with lonelf := stats.lonelf + stats.crlf, crlf := 0 } else stats
-          let new2 := if willConvertLfToCrlf cfg new1 a then { new1 with crlf := new1.crlf + new1.lonelf, lonelf := 0 } else new1
-          checkGlobalConvFlagsEol stats new2
+        if safe != .off then checkGlobalConvFlagsEol stats (simulateAddCheckout cfg stats convert a)
         else none
-      match safe, msg with
-      | .die, some m => .error m
-      | _, _ =>
-        if !convert then .ok { out := src, warning := msg }
-        else if a.isAuto then .ok { out := stripAllCr src, warning := msg }
-        else .ok { out := stripCrBeforeLf src, warning := msg }
+      crlfToGitTail src a convert msg safe
 
 /-- the `for (;;)` loop of `crlf_to_worktree`: `nl = memchr(src, '\n', len)`; a newline directly
 preceded (inside the current chunk) by `\r` is copied, any other gets a `\r` -/
@@ -327,25 +339,27 @@ structure GitAttrs where
   text : AttrValue
   deriving DecidableEq, Repr
 
-/-- `convert_attrs`: (`ca->crlf_action`, `ca->ident`) -/
-def convertAttrs (cfg : GitConfig) (at_ : GitAttrs) : CrlfAction × Bool :=
-  let a0 := gitPathCheckCrlf at_.text
-  let a1 := if a0 == .undefined then gitPathCheckCrlf at_.crlf else a0
+/-- the part of `convert_attrs` after `ca->crlf_action` was read from `text` (or else `crlf`):
+the `eol` attribute, then "Save attr and make a decision for action" -/
+def crlfActionOf (cfg : GitConfig) (a1 : CrlfAction) (eolAttr : Eol) : CrlfAction :=
   let a2 :=
     if a1 != .binary then
-      let eolAttr := gitPathCheckEol at_.eol
       if a1 == .auto && eolAttr == .lf then .autoInput
       else if a1 == .auto && eolAttr == .crlf then .autoCrlf
       else if eolAttr == .lf then .textInput
       else if eolAttr == .crlf then .textCrlf
       else a1
     else a1
-  -- "Save attr and make a decision for action"
   let a3 := if a2 == .text then (if textEolIsCrlf cfg then .textCrlf else .textInput) else a2
   let a4 := if a3 == .undefined && cfg.autoCrlf == .false_ then .binary else a3
   let a5 := if a4 == .undefined && cfg.autoCrlf == .true_ then .autoCrlf else a4
-  let a6 := if a5 == .undefined && cfg.autoCrlf == .input then .autoInput else a5
-  (a6, gitPathCheckIdent at_.ident)
+  if a5 == .undefined && cfg.autoCrlf == .input then .autoInput else a5
+
+/-- `convert_attrs`: (`ca->crlf_action`, `ca->ident`) -/
+def convertAttrs (cfg : GitConfig) (at_ : GitAttrs) : CrlfAction × Bool :=
+  let a0 := gitPathCheckCrlf at_.text
+  let a1 := if a0 == .undefined then gitPathCheckCrlf at_.crlf else a0
+  (crlfActionOf cfg a1 (gitPathCheckEol at_.eol), gitPathCheckIdent at_.ident)
 
 /-- `convert_to_git` (what `git hash-object -w --path` / `git add` store): `crlf_to_git`, then
 `ident_to_git` -/
